@@ -83,65 +83,65 @@ Definition expect (c : N) (st : tok) : ior unit * tok := expect_loop (loop_fuel 
 (* ---------- strings ---------- *)
 Inductive esc_action := EPush (v : N) | EDrop | EError | EUnicode.
 
-Section Escapes.
-  Variable escapes : list (N * N).     (* literal arms *)
-  Variable unknown : N.                (* the `_` arm: 0 drop, 1 push c, 2 error *)
-  Variable unicode : bool.             (* 'u' => result.push(self.read_unicode_escape()?) *)
+(* the escape arms of read_string as the generated table describes them *)
+Definition esc_action_of (escapes : list (N * N)) (unknown : N) (unicode : bool) (c : N) : esc_action :=
+  match lookup_esc c escapes with
+  | Some v => EPush v                                  (* 'c' => result.push('v') *)
+  | None =>
+      if unicode && N.eqb c c_u then EUnicode          (* 'u' => result.push(self.read_unicode_escape()?) *)
+      else if N.eqb unknown 0 then EDrop               (* _ => {} *)
+      else if N.eqb unknown 1 then EPush c             (* _ => result.push(c) *)
+      else EError                                      (* _ => return Err(..) *)
+  end.
 
-  Definition esc_action_of (c : N) : esc_action :=
-    match lookup_esc c escapes with
-    | Some v => EPush v
-    | None =>
-        if unicode && N.eqb c c_u then EUnicode
-        else if N.eqb unknown 0 then EDrop
-        else if N.eqb unknown 1 then EPush c
-        else EError
-    end.
-
-  (* read_hex4: four times `self.read()?.to_digit(16)` *)
-  Fixpoint read_hex_n (n : nat) (acc : N) (st : tok) : ior N * tok :=
-    match n with
-    | O => (IOk acc, st)
-    | S k =>
-        match read st with
-        | (IErr e, st1) => (IErr e, st1)
-        | (IOk c, st1) =>
-            match hex_val c with
-            | None => (IErr DataErr, st1)
-            | Some d => read_hex_n k (acc * 16 + d) st1
-            end
-        end
-    end.
-  Definition read_hex4 (st : tok) : ior N * tok := read_hex_n 4 0 st.
-
-  (* read_unicode_escape *)
-  Definition read_unicode_escape (st : tok) : ior N * tok :=
-    match read_hex4 st with
-    | (IErr e, st1) => (IErr e, st1)
-    | (IOk first, st1) =>
-        if is_hi_surrogate first then
-          match read st1 with
-          | (IErr e, st2) => (IErr e, st2)
-          | (IOk b, st2) =>
-              if negb (N.eqb b c_bslash) then (IErr DataErr, st2)
-              else
-                match read st2 with
-                | (IErr e, st3) => (IErr e, st3)
-                | (IOk v, st3) =>
-                    if negb (N.eqb v c_u) then (IErr DataErr, st3)
-                    else
-                      match read_hex4 st3 with
-                      | (IErr e, st4) => (IErr e, st4)
-                      | (IOk second, st4) =>
-                          if is_lo_surrogate second
-                          then (IOk (combine_surrogates first second), st4)
-                          else (IErr DataErr, st4)
-                      end
-                end
+(* read_hex4: four times `self.read()?.to_digit(16)` *)
+Fixpoint read_hex_n (n : nat) (acc : N) (st : tok) : ior N * tok :=
+  match n with
+  | O => (IOk acc, st)
+  | S k =>
+      match read st with
+      | (IErr e, st1) => (IErr e, st1)
+      | (IOk c, st1) =>
+          match hex_val c with
+          | None => (IErr DataErr, st1)
+          | Some d => read_hex_n k (acc * 16 + d) st1
           end
-        else if is_lo_surrogate first then (IErr DataErr, st1)     (* char::from_u32 = None *)
-        else (IOk first, st1)
-    end.
+      end
+  end.
+Definition read_hex4 (st : tok) : ior N * tok := read_hex_n 4 0 st.
+
+(* read_unicode_escape *)
+Definition read_unicode_escape (st : tok) : ior N * tok :=
+  match read_hex4 st with
+  | (IErr e, st1) => (IErr e, st1)
+  | (IOk first, st1) =>
+      if is_hi_surrogate first then
+        match read st1 with
+        | (IErr e, st2) => (IErr e, st2)
+        | (IOk b, st2) =>
+            if negb (N.eqb b c_bslash) then (IErr DataErr, st2)
+            else
+              match read st2 with
+              | (IErr e, st3) => (IErr e, st3)
+              | (IOk v, st3) =>
+                  if negb (N.eqb v c_u) then (IErr DataErr, st3)
+                  else
+                    match read_hex4 st3 with
+                    | (IErr e, st4) => (IErr e, st4)
+                    | (IOk second, st4) =>
+                        if is_lo_surrogate second
+                        then (IOk (combine_surrogates first second), st4)
+                        else (IErr DataErr, st4)
+                    end
+              end
+        end
+      else if is_lo_surrogate first then (IErr DataErr, st1)     (* char::from_u32 = None *)
+      else (IOk first, st1)
+  end.
+
+Section Escapes.
+  (* what the `match c` of read_string does with the character after a backslash *)
+  Variable act : N -> esc_action.
 
   (* the `while let Ok(c) = self.read()` loop of read_string; acc is reversed *)
   Fixpoint read_string_loop (fuel : nat) (st : tok) (escape : bool) (acc : text)
@@ -155,7 +155,7 @@ Section Escapes.
             if escape then (IErr DataErr, st1) else (IOk (rev acc), st1)
         | (IOk c, st1) =>
             if escape then
-              match esc_action_of c with
+              match act c with
               | EPush v => read_string_loop f st1 false (v :: acc)
               | EDrop => read_string_loop f st1 false acc
               | EError => (IErr DataErr, st1)
@@ -179,19 +179,33 @@ Section Escapes.
         let st2 := set_skip st1 false in
         read_string_loop (loop_fuel st2) st2 false []
     end.
+
+  (* a complete string literal: what the theorems of C14 are stated about *)
+  Definition read_string_text_gen (t : text) : option text :=
+    match read_string_gen (tok_new t) with
+    | (IOk s, _) => Some s
+    | (IErr _, _) => None
+    end.
 End Escapes.
 
-Definition read_string (st : tok) : ior text * tok :=
-  read_string_gen tok_escapes tok_unknown tok_unicode st.
+Definition tok_act : N -> esc_action := esc_action_of tok_escapes tok_unknown tok_unicode.
+Definition read_string (st : tok) : ior text * tok := read_string_gen tok_act st.
+Definition read_string_text (t : text) : option text := read_string_text_gen tok_act t.
 
-(* a complete string literal: what the theorems of C14 are stated about *)
-Definition read_string_text_gen esc unk uni (t : text) : option text :=
-  match read_string_gen esc unk uni (tok_new t) with
-  | (IOk s, _) => Some s
-  | (IErr _, _) => None
+(* the arms decode every escape of RFC 8259 section 7 *)
+Definition is_push (a : esc_action) (v : N) : bool :=
+  match a with EPush v' => N.eqb v' v | _ => false end.
+Definition act_complete (act : N -> esc_action) : bool :=
+  forallb (fun ev => is_push (act (fst ev)) (snd ev)) std_escapes
+  && match act c_u with EUnicode => true | _ => false end.
+
+(* a string body the arms get wrong, when they are not complete *)
+Definition act_witness (act : N -> esc_action) : text :=
+  match find (fun ev => negb (is_push (act (fst ev)) (snd ev))) std_escapes with
+  | Some (e, _) => [c_bslash; e]
+  | None => [c_bslash; c_u; 48; 48; 52; 49]          (* \u0041 *)
   end.
-Definition read_string_text (t : text) : option text :=
-  read_string_text_gen tok_escapes tok_unknown tok_unicode t.
+Definition tok_witness : text := act_witness tok_act.
 
 (* ---------- separators, numbers, literals ---------- *)
 Definition is_separator (c : N) : bool := N.eqb c 44 || N.eqb c 125 || N.eqb c 93.
